@@ -161,10 +161,9 @@ def execute(scenario):
             ex = [r for r in recs if r["kind"] == "EXEC" and st["seq"] < r["seq"] < st["end_seq"]]
             due = k - delay
             if st.get("exc") is not None:
-                # an error at the due step is a rejection wherever it is raised; before the due step only the
-                # membership test may reject (anything else is an unrelated failure)
-                in_membership_test = "spaces.py:make_rebalancing_request" in (st.get("chain") or [])
-                if pending_bad is None or (due != pending_bad and not in_membership_test) or st["exc"] == "EndOfEpisodeError":
+                # "rejected with an error no later than the step at which it is due": once a malformed action
+                # is pending, an error at any step up to its due step is a rejection wherever it is raised
+                if pending_bad is None or st["exc"] == "EndOfEpisodeError":
                     violate("unexpected_exception", "step {} raised {}: {} [{}] although every submitted action is in the space".format(
                         k, st["exc"], st.get("msg"), st.get("site")), op=k, exc=st["exc"], where="step", site=st.get("site"))
                     break
